@@ -6,6 +6,7 @@ for seed in "$@"; do
   for p in C01 C02 C03 C04 C05 C06 C07 C08 C09 C10 C11 C12 C13 C14 C15 C16 C17 C18 C19 C20; do
     out=$(VERIF_SEED=$seed ./check $p $tier 2>&1); rc=$?
     echo "seed=$seed $p rc=$rc $(echo "$out" | grep -c '^VIOLATION') viol; $(echo "$out" | grep -c '^INCONCLUSIVE') inconc; $(echo "$out" | tail -1 | cut -c1-160)"
-    if [ $rc -ne 0 ]; then echo "$out" | grep -B1 -m3 '^VIOLATION\|^INCONCLUSIVE' | cut -c1-400; fi
+    if [ $rc -ne 0 ]; then echo "$out" | grep -B1 -m3 '^VIOLATION' | cut -c1-400; fi
+    echo "$out" | grep -m3 '^INCONCLUSIVE' | cut -c1-400
   done
 done
